@@ -87,7 +87,7 @@ def error_count_with_byes(plan, cfg) -> int | None:
     total = 0
     for t in range(n):
         col = [plan[d][t] for d in range(D)]
-        for sign, grp in groupby(col, key=lambda v: (v > 0) - (v < 0)):
+        for sign, grp in groupby(col, key=lambda v: (int(v) > 0) - (int(v) < 0)):
             ln = len(list(grp))
             if sign == 0:
                 total += ln                      # one error per bye
